@@ -51,6 +51,9 @@ STRENGTHENED = {
  "C17-r3m2": "round 3, first run: missed (Drain::drop returns early when needs_drop::<T>() is false; all C17 monitors used an instance-counting element type, which has drop glue). Added c17_plain: RawTable<u64, _> under random sequences with partially consumed drains.",
  "C18-r3m1": "round 3, first run: missed (DIMACS: a `c vo` tree after name records does not reset the linear order; var_order option). The semantic round trips now also write the order as a tree with name records before and after it.",
  "C20-r3m1": "round 3, first run: missed (pointer-based manager variant of C08-r3m1). Closed by the sub-function counts in the C08 cases, which C20 runs on the pointer variant.",
+ "C05-r4m1": "round 4, first run: caught by C14 (c14_nested) only (index-based node store: a thread bound to ANOTHER manager takes a slot from a shared free list but leaves the exhausted list's head in place, so the slot is handed out twice and a live node overwritten). C05 now runs c14_nested (histories with gc and the reference-count audit after every step, executed inside a scope of a second manager).",
+ "C07-r4m1": "round 4, first run: caught by C14 (c14_nested) only (freeing a slot from a thread bound to another manager chains it onto the newest shared free list without removing that list: overlapping lists, slots handed out twice). c14_nested now also runs its multi-threaded sweeps inside the outer scope and C07 lists it.",
+ "C11-r4m1": "round 4, first run: missed (TDD eval initialises only the first 8 of the 16 two-bit entries per block to `unknown`: omitted variables at levels 8..15 mod 16 evaluate as true; needs >= 9 variables and an argument list that omits the variable). The 40-variable TDD evaluation now repeats every evaluation with the unknown variables omitted.",
 }
 rows = []
 for d in sorted(glob.glob(f"{ROOT}/seeded/C*-*m*")):
